@@ -74,7 +74,10 @@ pub fn c09(seed: u64, budget: usize) -> Report {
             let m = *r.pick(&STD7); let t = *r.pick(&TC14); let p = loop { let p = *r.pick(&CP11); if p != "ST428" { break p; } };
             let full = r.below(2) == 1; let bd = 8 + r.below(9) as u32; let (ssx, ssy) = *r.pick(&SS);
             let cfg = cfg_of(bd as u8, ssx, ssy, full, mc_of(m).unwrap(), tc_of(t).unwrap(), cp_of(p).unwrap());
-            let (bw, bh) = (16usize, 16usize); let (w, h) = (bw << ssx, bh << ssy);
+            // chroma grids of every shape: mostly 16x16, but also a single column / row and tiny grids (the encoder's
+            // chroma-write skip is keyed on positions, which only shows on planes one sample wide with several rows)
+            let (bw, bh) = match r.below(4) { 0 => (1usize, 1 + r.below(6) as usize), 1 => (1 + r.below(3) as usize, 1 + r.below(3) as usize), _ => (16usize, 16usize) };
+            let (w, h) = (bw << ssx, bh << ssy);
             // block-constant in-gamut RGB
             let blocks: Vec<[f32; 3]> = (0..bw * bh).map(|i| match i % 5 { 0 => { let g = r.unit(); [g, g, g] } 1 => { let c = [0.0f32, 1.0]; [*r.pick(&c), *r.pick(&c), *r.pick(&c)] } 2 => [r.unit() * 0.02, r.unit() * 0.02, r.unit() * 0.02], _ => [r.unit(), r.unit(), r.unit()] }).collect();
             let img: Vec<[f32; 3]> = (0..w * h).map(|i| { let (x, y) = (i % w, i / w); blocks[(y >> ssy) * bw + (x >> ssx)] }).collect();
